@@ -96,7 +96,7 @@ def null_variants(f):
     return [()] + [(p_,) for p_ in ptrs]
 
 
-def slot_fold(prog, f, alloc_answer=70000, nulls=()):
+def slot_fold(prog, f, alloc_answer=70000, nulls=(), detector=None, statics=None):
     """Fold a function stored in an allocation slot against recording stubs of the detector and of SimpleMutex, with
     local objects modelled: constructors and (also on unwinding) destructors of the lock types are run, whichever
     classes and helpers the locking is spread over. Returns the chronological list of events:
@@ -104,7 +104,7 @@ def slot_fold(prog, f, alloc_answer=70000, nulls=()):
     where `locked` says whether the global detector's mutex is held at that moment."""
     from cpv.ceval import Evaluator, Unknown
     GETTERS = {"getCurrentNewAllocator": 101, "getCurrentNewArrayAllocator": 102, "getCurrentMallocAllocator": 103}
-    hooks = {"MemoryLeakWarningPlugin::getGlobalDetector": lambda *a_: DETECTOR,
+    hooks = {"MemoryLeakWarningPlugin::getGlobalDetector": lambda *a_: DETECTOR if detector is None else detector,
              "MemoryLeakDetector::getMutex": lambda o, *a_: (o + 222) if isinstance(o, int) else None,
              "SimpleMutex::Lock": lambda *a_: 0, "SimpleMutex::Unlock": lambda *a_: 0}
     for g, v in GETTERS.items():
@@ -121,6 +121,8 @@ def slot_fold(prog, f, alloc_answer=70000, nulls=()):
         lt_ = lock_types(prog) | {"ScopedMutexLock"}
         prog._c10_inline = {g.qn for g in prog.functions.values() if g.file in (PLUGIN, "src/CppUTest/SimpleMutex.cpp") or g.cls in lt_}
     ev.inline = prog._c10_inline - set(hooks)
+    if statics is not None:
+        ev.statics = statics            # function-local statics carried from an earlier fold (the same process, a later call)
     e_, _ = ev.run_blocks(f.entry, max_steps=1500)
     end = "throw" if e_ == "throw" else "return"
     events, frames, held = [], ["<self>"], {}
@@ -401,6 +403,18 @@ def check(ctx, run):
                 why = "unlock precedes lock"
             run.ob("R3", "slot %s (detector answers %s%s): locks the global detector's mutex once and releases it once by the time it %ss" % (s_, "a block" if answer else "NULL", (", %s == NULL" % nulls[0]) if nulls else "", endt), ft.site, not why,
                    witness=[list(map(str, e)) for e in et if e[0] in ("acquired", "released")], what=why)
+        # the global detector can be replaced between two operations (setGlobalDetector, destroy + lazy re-creation): the second
+        # operation, folded with whatever function-local statics the first one left, locks the mutex of the detector that is current THEN
+        try:
+            st_ = {}
+            slot_fold(prog, ft, statics=st_)
+            e2, _, end2, _ = slot_fold(prog, ft, detector=DETECTOR + 1000, statics=st_)
+            lk2 = [e[1] for e in e2 if e[0] == "acquired"]
+            ok2 = lk2 == [MUTEX_OF_DETECTOR + 1000]
+            run.ob("R3", "slot %s folded a second time after the global detector was replaced: locks the new detector's mutex" % s_, ft.site, ok2, witness={"locks": lk2, "statics kept": [k_[1] for k_ in st_]},
+                   what="" if ok2 else "locks %s while working on the detector whose mutex is %d: a mutex looked up once is kept across a change of the global detector" % (lk2, MUTEX_OF_DETECTOR + 1000))
+        except Unknown as u:
+            run.broke("C10.R3: the thread-safe function of slot %s cannot be folded twice: %s" % (s_, u))
     gm = prog.fn("MemoryLeakDetector::getMutex")
     run.analysed(gm)
     rets = getter_fold(prog, gm, "mutex_")
